@@ -55,8 +55,8 @@ def gen_dim(r, extent):
     return {"vec": [num_json(v) for v in vals], "as": r.choice(["list", "array", "list"])}
 
 
-UNITS = ["nm", "A^-1", "Å", "", "pixels", "unknown", "a rather long unit name", "µm", "s"]
-NAMES = ["rx", "ry", "qx", "qy", "x", "time", "dim0", "dim9", "énergie", "", "a b"]
+UNITS = ["nm", "A^-1", "Å", "", "pixels", "unknown", "a rather long unit name", "µm", "s", "u" * 70 + "é" * 100]
+NAMES = ["rx", "ry", "qx", "qy", "x", "time", "dim0", "dim9", "énergie", "", "a b", "n" * 63 + "é" * 90]
 
 
 def gen_case(r, allow_bad=True):
@@ -80,8 +80,18 @@ def gen_case(r, allow_bad=True):
         elif c < 0.55:
             # the same few label names in different orders in different arrays (a label is only unique within its array)
             rec["labels"] = r.sample(LABEL_POOL, min(depth, len(LABEL_POOL)))
-        else:
+        elif c < 0.8:
             rec["labels"] = [f"L{i}" + r.choice(["", "é", " x"]) for i in range(r.choice([depth, depth, max(depth - 1, 0), depth + 1]))]
+        elif c < 0.9:
+            # LONG labels: beyond any fixed-width string type, sharing a long common prefix, multi-byte characters
+            # straddling the usual widths (32 / 64 / 128 / 256 bytes)
+            w = r.choice([31, 63, 127, 255])
+            stem = r.choice(["x" * w, "x" * (w - 1) + "é" * 3, "é" * w])
+            rec["labels"] = [stem + f"#{i}" for i in range(depth)]
+        else:
+            # an over-long list whose surplus labels REPEAT kept ones (the surplus is dropped; the kept ones are distinct)
+            kept = [f"K{i}" for i in range(depth)]
+            rec["labels"] = kept + [r.choice(kept) for _ in range(r.choice([1, 2, 3]))] if kept else []
     else:
         rec["labels"] = None
     rec["then"] = []
@@ -99,6 +109,13 @@ def gen_case(r, allow_bad=True):
         else:
             st = {"set": "name", "n": n, "name": r.choice(NAMES)}
         rec["then"].append(st)
+    # a SECOND save of the same object after one more calibration change (what was decided at the first save must not
+    # stick): the new vector has, as often as not, the other linearity
+    if r.random() < 0.35 and nrank > 0:
+        n = r.randrange(0, nrank)
+        rec["resave"] = {"set": "dim", "n": n, "dim": gen_dim(r, nshape[n])}
+        if r.random() < 0.3:
+            rec["resave"]["units"] = r.choice(UNITS)
     return rec
 
 
@@ -180,8 +197,16 @@ LABEL_POOL = ["mean", "max", "std", "a", "b", "sum"]
 EARLIER = []          # stack arrays of earlier cases of this process: each must keep addressing its own slices
 
 
+def same_vec(d1, d2):
+    x1, x2 = list(np.asarray(d1).tolist()), list(np.asarray(d2).tolist())
+    if len(x1) != len(x2):
+        return False
+    return all(u == v or (u != u and v != v) for u, v in zip(x1, x2))
+
+
 def addresses_own_slices(a):
-    """`ar[label]` / `get_slice(label)` returns slice i for the i-th label (distinct labels)"""
+    """`ar[label]` / `get_slice(label)` returns slice i for the i-th label (distinct labels), with the calibrations the
+    stack has NOW"""
     labels = [str(l) for l in a.slicelabels]
     if len(set(labels)) != len(labels):
         return None
@@ -192,6 +217,17 @@ def addresses_own_slices(a):
             return {"label": str(l), "lookup_raised": type(e).__name__}
         if alpha.array_token(s.data) != alpha.array_token(a.data[i]):
             return {"label": str(l), "expected_slice": i, "returned_another_slice": True}
+        try:
+            cal = {"units": str(s.units) == str(a.units),
+                   "dim_units": [str(u) for u in s.dim_units] == [str(u) for u in a.dim_units],
+                   "dim_names": [str(u) for u in s.dim_names] == [str(u) for u in a.dim_names],
+                   "dims": len(s.dims) == len(a.dims) and all(same_vec(x, y) for x, y in zip(s.dims, a.dims))}
+        except Exception as e:
+            return {"label": str(l), "slice_calibration_raised": type(e).__name__}
+        if not all(cal.values()):
+            return {"label": str(l), "slice_has_other_calibrations_than_the_stack": [k for k, v in cal.items() if not v],
+                    "slice_dim_units": [str(u) for u in s.dim_units], "stack_dim_units": [str(u) for u in a.dim_units],
+                    "slice_dim_names": [str(u) for u in s.dim_names], "stack_dim_names": [str(u) for u in a.dim_names]}
     return None
 
 
@@ -208,6 +244,15 @@ def remember(*objs):
         if a is not None and getattr(a, "is_stack", False) and a.depth > 0:
             EARLIER.append(a)
     del EARLIER[:-4]
+
+
+def apply_setter(a, st):
+    if st["set"] == "dim":
+        a.set_dim(st["n"], py_dim(st["dim"]), units=st.get("units"), name=st.get("name"))
+    elif st["set"] == "units":
+        a.set_dim_units(st["n"], st["units"])
+    else:
+        a.set_dim_name(st["n"], st["name"])
 
 
 def run_impl(rec):
@@ -231,17 +276,17 @@ def run_impl(rec):
     except Exception as e:
         out["ctor"] = alpha.exc_kind(e)
         return out, None
+    leak = addresses_own_slices(a) if a.is_stack else None      # the labels are used BEFORE any change, too
     for st in rec["then"]:
         try:
-            if st["set"] == "dim":
-                a.set_dim(st["n"], py_dim(st["dim"]), units=st.get("units"), name=st.get("name"))
-            elif st["set"] == "units":
-                a.set_dim_units(st["n"], st["units"])
-            else:
-                a.set_dim_name(st["n"], st["name"])
+            apply_setter(a, st)
             out["setters"].append(array_obs(a))
         except Exception as e:
             out["setters"].append(alpha.exc_kind(e))
+        if leak is None and a.is_stack:
+            leak = addresses_own_slices(a)
+            if leak:
+                leak["after_setter"] = st
     g = alpha.scratch_group()
     try:
         with common.quiet():
@@ -260,8 +305,28 @@ def run_impl(rec):
         out["slices"] = {str(l): int(a.slicelabels._dict[l]) for l in a.slicelabels}
     else:
         out["slices"] = {}
+    # the same object saved a SECOND time after one more change
+    if rec.get("resave") is not None:
+        rs = {"after": None, "body": None, "back": None}
+        try:
+            apply_setter(a, rec["resave"])
+            rs["after"] = array_obs(a)
+        except Exception as e:
+            rs["after"] = alpha.exc_kind(e)
+        g2 = alpha.scratch_group()
+        try:
+            with common.quiet():
+                grp2 = a.to_h5(g2)
+            rs["body"] = body_obs(grp2)
+            with common.quiet():
+                rs["back"] = array_obs(emdfile.Array.from_h5(grp2))
+        except Exception as e:
+            if rs["body"] is None:
+                rs["body"] = alpha.exc_kind(e)
+            else:
+                rs["back"] = alpha.exc_kind(e)
+        out["resave"] = rs
     # state must not leak between Arrays: the arrays of this case and those of earlier cases still address their own slices
-    leak = None
     for x in (a, b):
         if x is not None and x.is_stack and leak is None:
             leak = addresses_own_slices(x)
@@ -281,10 +346,24 @@ def model_req(rec):
     return req
 
 
+def model_obs(drv, rec):
+    """the model's answer, with the second save (if any) predicted by a second request whose setters include the last change"""
+    mo = drv.ask(model_req(rec))
+    if rec.get("resave") is not None and isinstance(mo, dict):
+        rec2 = dict(rec, then=list(rec["then"]) + [rec["resave"]])
+        m2 = drv.ask(model_req(rec2))
+        if isinstance(m2, dict) and isinstance(m2.get("ctor"), dict) and "err" not in m2["ctor"]:
+            last = m2["setters"][-1] if m2.get("setters") else None
+            mo["resave"] = {"after": last, "body": m2.get("body"), "back": m2.get("back")}
+    return mo
+
+
 def canon(o):
     o = alpha.canon_obs(o)
     if isinstance(o, dict) and isinstance(o.get("ctor"), dict) and "err" in o["ctor"]:
         o = dict(o, setters=[], body=None, back=None, slices=None)
     if isinstance(o, dict) and isinstance(o.get("body"), list):
         o["body"] = sorted(o["body"], key=lambda e: e[0])
+    if isinstance(o, dict) and isinstance(o.get("resave"), dict) and isinstance(o["resave"].get("body"), list):
+        o["resave"] = dict(o["resave"], body=sorted(o["resave"]["body"], key=lambda e: e[0]))
     return o
